@@ -193,6 +193,8 @@ def param_taints(p, fmt=None, forced_default=False):
     d = p.get("default")
     if is_open("P12") and isinstance(d, str) and d != NoneStr and not d.startswith("(") and not gen_ir.is_plain_str(d):
         t.add("P12")  # hostile string default ('' / dots / quotes / leading blank / 'None' / digits ...)
+    if is_open("P12") and isinstance(d, str) and DEFAULT_FRAGMENT.search(d):
+        t.add("P12")  # ... or a string default that itself contains a `Defaults to X` fragment (seed 1 after the round-9 widening: 'Defaults to 3' comes back as '3"' and is lost one round later)
     return t
 
 
